@@ -924,6 +924,11 @@ where
         }
         data.open_files[file_idx].entry.attributes.set_archive(true);
         data.open_files[file_idx].entry.mtime = self.time_source.get_timestamp();
+        if bytes_to_write < buffer.len() {
+            // The file is as long as FAT can describe; the rest of the
+            // buffer was not stored and the caller needs to know.
+            return Err(Error::DiskFull);
+        }
         Ok(())
     }
 
